@@ -30,6 +30,9 @@ RULE = ('state = one table (or one ordered pair of tables for dataJoin, one type
         'longest length of the month x date / date-time texts (+ 5-digit years): the text alone, as first and as later cell of a '
         'column; a day that exists by the reference civil calendar is a datetime, any other text stays a string and the table is '
         'parsed (non-trivial: the text names no existing day). '
+        'Backslashes: every table of <= 2 rows x 3 string columns over cells with a backslash in the middle, at the end, doubled, '
+        'before a comma, before a quote, before n, alone, with plain and with backslash-bearing header names, written with RFC '
+        '4180 quoting only (non-trivial: a cell holds a backslash). '
         'Calendar ends: every table of <= 3 rows whose column a is drawn from {null, 0001-01-01T00:00:00+23:59, '
         '9999-12-31T23:59:59-23:59, 9999-12-31T23:59:59Z, 0001-01-01T00:00:00Z, a valid date-time, abc} under UTC and DST zones: '
         'a text whose local time does not exist in years 1..9999 stays a string and the rest of the table is parsed '
@@ -1519,6 +1522,72 @@ def fam_csv_dates(arg):
 
 
 # ---------------------------------------------------------------------------------------------------------------------
+# family csv_backslash: a backslash is an ordinary character of a CSV cell (RFC 4180 has no escape character; the
+# reference writer quotes with doubled quotes only). Three string columns so that a cell ending in a backslash sits in
+# the first, the middle and the last column; header names with backslashes too.
+# ---------------------------------------------------------------------------------------------------------------------
+
+BS = '\\'
+BS_CELLS = ['x', 'a' + BS + 'b', 'a' + BS, 'a' + BS + BS + 'b', 'a' + BS + ',b', 'a' + BS + '"b', 'a' + BS + 'n', BS, BS + BS]
+BS_LATER = {'quick': [0, 1, 2], 'thorough': [0, 1, 2, 4, 7]}      # cells of the second row (indices into BS_CELLS)
+BS_HEADERS = [['a', 'b', 'c'], ['h' + BS + 'a', 'k' + BS, BS + 'c']]
+
+
+def check_csv_backslash(case, acc):
+    fields = BS_HEADERS[case['header']]
+    rows = [[BS_CELLS[i] for i in row] for row in case['rows']]
+    lines = [','.join(rd.csv_quote(name) for name in fields)] + [','.join(rd.csv_quote(c) for c in row) for row in rows]
+    want = [dict(zip(fields, row)) for row in rows]
+    text = '\n'.join(lines)
+    for k, mode in enumerate(CSV_MODES):
+        if case.get('variant', k) != k:
+            continue
+        if mode == 'one string':
+            ok, res = call(acc, 'dataParseCSV', [text])
+        elif mode == 'line strings':
+            ok, res = call(acc, 'dataParseCSV', list(lines))
+        else:
+            ok, res = run_script(acc, CSV_SCRIPT, {'text': text})
+        acc.traces += 1
+        c2 = dict(case, variant=k, op=f'dataParseCSV as {mode}', csv=lines)
+        if not ok:
+            acc.violation(c2, canon_flat(want), res, 'dataParseCSV raised')
+        elif not isinstance(res, list) or any(not isinstance(r, dict) for r in res) or len(res) != len(want):
+            acc.violation(c2, canon_flat(want), canon_flat(res), 'dataParseCSV did not return one row object per line')
+        elif canon_flat(res) != canon_flat(want):
+            ri = next(i for i, (g, w) in enumerate(zip(res, want)) if canon_flat(g) != canon_flat(w))
+            acc.violation(c2, canon_flat(want), canon_flat(res), f'row {ri}: read back {res[ri]!r}, written {want[ri]!r} (a backslash is an ordinary character)')
+    acc.outcome((case['header'], tuple(case['rows'][0]) if case['rows'] else ()))
+    return any(BS in c for row in rows for c in row)
+
+
+def csv_backslash_size(tier):
+    n, m = len(BS_CELLS) ** 3, len(BS_LATER[tier]) ** 3
+    return len(BS_HEADERS) * (1 + n + n * m)
+
+
+def fam_csv_backslash(arg):
+    tier, header, firsts = arg
+    acc = Acc('csv_backslash')
+    cases = []
+    if firsts[0] == 0:
+        cases.append([])
+    for first in firsts:
+        for rest in itertools.product(range(len(BS_CELLS)), repeat=2):
+            row1 = [first] + list(rest)
+            cases.append([row1])
+            cases.extend([row1, list(row2)] for row2 in itertools.product(BS_LATER[tier], repeat=3))
+    for rows in cases:
+        acc.cases += 1
+        acc.states += 1
+        if check_csv_backslash({'header': header, 'rows': rows}, acc):
+            acc.nontrivial += 1
+        if rows == [[2, 1, 5]]:
+            acc.sample({'header': BS_HEADERS[header], 'csv_row': ','.join(rd.csv_quote(BS_CELLS[i]) for i in rows[0]), 'cells': [BS_CELLS[i] for i in rows[0]]})
+    return acc.result()
+
+
+# ---------------------------------------------------------------------------------------------------------------------
 # families
 # ---------------------------------------------------------------------------------------------------------------------
 
@@ -1586,17 +1655,21 @@ def families(tier):
                f'{DATE_FORMS} + {DATE_EXTRA} = {len(date_grid(tier))} texts; each alone, and as first / later cell of a two-row column whose other cell '
                f'is one of {DATE_OTHER}; column b from {{null, 1}}; read by dataParseCSV (3 modes) and dataValidate(rows, true)',
                expected=csv_dates_size(tier)),
+        Family('csv_backslash', fam_csv_backslash, [(tier, h, [f]) for h in range(len(BS_HEADERS)) for f in range(len(BS_CELLS))],
+               f'every table of <= 2 rows x 3 string columns, first row from {len(BS_CELLS)} cells (x, backslash in the middle, at the end, doubled, '
+               f'before a comma, before a quote, backslash+n, a lone backslash, two backslashes), second row from {len(BS_LATER[tier])} of them, '
+               f'x {len(BS_HEADERS)} header lists (plain names, names with backslashes) x 3 reading modes', expected=csv_backslash_size(tier)),
     ]
 
 
 _CHECKS = {'filter': check_filter, 'sort': check_sort, 'top': check_top, 'aggregate': check_aggregate, 'calc': check_calc,
            'join_keys': check_join_keys, 'join_names': check_join_names, 'script': check_script, 'csv': check_csv,
-           'scope': check_scope, 'aggregate_num': check_aggregate_num, 'keykinds': check_keykinds, 'join_keykinds': check_join_keykinds, 'csv_tz': check_csv_tz, 'csv_edge': check_csv_edge, 'csv_case': check_csv_case, 'csv_dates': check_csv_dates}
+           'scope': check_scope, 'aggregate_num': check_aggregate_num, 'keykinds': check_keykinds, 'join_keykinds': check_join_keykinds, 'csv_tz': check_csv_tz, 'csv_edge': check_csv_edge, 'csv_case': check_csv_case, 'csv_dates': check_csv_dates, 'csv_backslash': check_csv_backslash}
 
 
 def replay(family, case):
     acc = Acc(family)
-    keep = {k: v for k, v in case.items() if k in ('rows', 'left', 'right', 'types', 'cols', 'variant', 'tz', 'tier', 'grid', 'pos', 'other', 'b')}
+    keep = {k: v for k, v in case.items() if k in ('rows', 'left', 'right', 'types', 'cols', 'variant', 'tz', 'tier', 'grid', 'pos', 'other', 'b', 'header')}
     _CHECKS[family](keep, acc)
     res = acc.result()
     return {'differs': bool(res['nviol'] or res['nknown']), 'violations': res['violations'] + res['known_violations'],
